@@ -12,6 +12,7 @@ package xplore
 
 import (
 	"fmt"
+	"runtime/debug"
 	"sync"
 	"sync/atomic"
 	"time"
@@ -145,7 +146,7 @@ func (e *Explorer) Run() {
 			defer wg.Done()
 			defer func() {
 				if r := recover(); r != nil {
-					e.panicV.Store(fmt.Sprint(r))
+					e.panicV.Store(fmt.Sprintf("%v\n%s", r, debug.Stack()))
 					e.capped.Store(true)
 					// drain so that the other workers terminate
 					for range e.tasks {
